@@ -748,6 +748,25 @@ func (g *gen) harnessUnknown(prop string, m *Message) {
 		}
 	}
 	if prop == "C04" {
+		g.p("// the same facts through the real protobuf-go entry points (proto.Size / MarshalOptions.MarshalAppend)")
+		g.p("func VH_C04_%s__library() {", n)
+		g.p("\tx := &%s{}", n)
+		g.p("\tif vhChoice(\"filled\", 2) == 1 {")
+		g.p("\t\tvhFill_%s(x)", n)
+		g.p("\t}")
+		g.p("\tdet := vhChoice(\"det\", 2) == 1")
+		g.p("\tprefix := []byte{vhU8(\"pre0\")}")
+		g.p("\tsz := proto.Size(x)")
+		g.p("\tout, err := proto.MarshalOptions{Deterministic: det}.MarshalAppend(prefix, x)")
+		g.p("\tvhAssert(\"marshal.noerr\", err == nil)")
+		g.p("\tvhAssert(\"size.eq.marshal\", sz == len(out)-1)")
+		g.p("\tspec := vhSpec_%s(nil, x)", n)
+		g.p("\tvhAssert(\"size.eq.reference\", sz == len(spec))")
+		g.p("\tif det && len(out) >= 1 {")
+		g.p("\t\tvhAssertBytesEq(\"append.encoding\", out[1:], spec)")
+		g.p("\t}")
+		g.p("}")
+		g.p("")
 		g.p("// every caller-buffer shape, on a message with every field populated")
 		g.p("func VH_C04_%s_prefix() {", n)
 		g.p("\tx := &%s{}", n)
